@@ -8,8 +8,7 @@ the terminating NUL that `NLStringRef` guarantees (`rd len = 0`).  The cursor st
 `ptr_`, `token_`, `line_start_`, `line_` as offsets from `start_`.
 
 Outcomes: a value and the new cursor, a located read error, or *undefined behaviour*
-(`ub`): the C++ code at this point would read past the terminating NUL (`overrun`), convert
-an unrepresentable double to `long` (`floatCast`) or overflow a signed `int` (`signedOverflow`).
+(`ub`): the C++ code at this point would read past the terminating NUL (`overrun`).
 -/
 namespace MpVerif.C02
 
@@ -52,11 +51,13 @@ deriving Repr, BEq, DecidableEq
 def Err.toStr (e : Err) : String :=
   if e.bin then s!"berr:{e.cls.toStr}:{e.a}" else s!"rerr:{e.cls.toStr}:{e.a}:{e.b}"
 
-inductive UB | floatCast | signedOverflow | overrun
+/-- the only undefined behaviour left in the model after the fixes 1efd01c..984b1d0: the cursor is
+    dereferenced past the terminating NUL -/
+inductive UB | overrun
 deriving Repr, BEq, DecidableEq
 
 def UB.toStr : UB → String
-  | .floatCast => "ub:float-cast" | .signedOverflow => "ub:signed-overflow" | .overrun => "ub:overrun"
+  | .overrun => "ub:overrun"
 
 inductive LRes (α : Type) where
   | ok (a : α) (r : RState)
